@@ -3,8 +3,8 @@
     python -B vf/fuzz08.py --seconds 300 --seed 7 --corpus seeds|empty --work DIR
 
 The fuzzer's bytes are decoded by a structured layer: a prefix of choice bytes selects a seed text and a sequence of
-G-level mutations (vf/props/c08.apply_mutations), the remainder is spliced as raw characters (digits removed, so the
-magnitude bounds of grammar G survive).  The semantic oracle (result or reported error, under both report handlers) is
+G-level mutations (vf/props/c08.apply_mutations), the remainder is spliced as raw characters (ASCII digits removed and at most two
+non-ASCII digits kept, so the magnitude bounds of grammar G survive).  The semantic oracle (result or reported error, under both report handlers) is
 inside the target; violations are written to DIR/findings.jsonl and the search goes on behind them.
 """
 import json
@@ -111,6 +111,15 @@ def main():
         pos = fdp.ConsumeIntInRange(0, max(len(text), 1))
         raw = fdp.ConsumeUnicodeNoSurrogates(40)
         raw = re.sub(r"[0-9]", "", raw)
+        keep = 2                     # non-ASCII digits: at most two, so that '^D' + digits stays within G's magnitude bounds
+        out = []
+        for ch in raw:
+            if ch.isnumeric() or ch.isdigit():
+                if keep == 0:
+                    continue
+                keep -= 1
+            out.append(ch)
+        raw = "".join(out)
         text = text[:pos] + raw + text[pos:]
         case = {"kind": "texts", "texts": [text], "charset": "bk", "meta": {"source": "atheris", "planted": [], "mutations": nm}}
         driver.reset_state()     # fuzz target: no state leaks between iterations
@@ -130,7 +139,7 @@ def main():
             flush()
 
     import atexit
-    argv = [sys.argv[0], f"-max_total_time={a.seconds}", f"-seed={a.seed}", "-max_len=160", "-timeout=120", "-rss_limit_mb=6000", "-print_final_stats=1", corpus_dir]
+    argv = [sys.argv[0], f"-max_total_time={a.seconds}", f"-seed={a.seed}", "-max_len=160", "-timeout=120", "-rss_limit_mb=6000", "-print_final_stats=1", f"-artifact_prefix={a.work}/", corpus_dir]
     atheris.Setup(argv, target)
     flush()
     try:
